@@ -1,0 +1,16 @@
+//go:build verif
+
+package clock
+
+import "sync/atomic"
+
+// VerifNow, when non-nil, replaces the wall clock of every Clock: NowNano
+// returns its value. Only compiled with the verif build tag.
+var VerifNow atomic.Pointer[atomic.Int64]
+
+func verifNow(*Clock) (int64, bool) {
+	if p := VerifNow.Load(); p != nil {
+		return p.Load(), true
+	}
+	return 0, false
+}
